@@ -1,6 +1,7 @@
 package main
 
 import (
+	"sort"
 	"fmt"
 	"go/ast"
 	"go/token"
@@ -251,4 +252,136 @@ func checkRememberedModes(c *Ctx, p *Prog, rule, tname string, fields, roots []s
 		}
 		c.Check(bad == "", rule, tname+"."+f+":remembered", "-", fmt.Sprintf("stored by %v; none of them reachable from %v %s", writers, roots, bad))
 	}
+}
+
+// localGuardDNF: the conditions under which control gets from block from to
+// block to, as a set of conjunctions of atoms (one per acyclic path), with the
+// atoms for which drop() is true left out.  Meant for small if-chains.
+func localGuardDNF(from, to *ssa.BasicBlock, drop func(Atom) bool) (map[string]bool, bool) {
+	out := map[string]bool{}
+	n := 0
+	var walk func(b *ssa.BasicBlock, conj []string, seen map[*ssa.BasicBlock]bool) bool
+	walk = func(b *ssa.BasicBlock, conj []string, seen map[*ssa.BasicBlock]bool) bool {
+		if n > 256 {
+			return false
+		}
+		if b == to {
+			n++
+			cp := append([]string{}, conj...)
+			sort.Strings(cp)
+			// dedupe
+			var dd []string
+			for i, s := range cp {
+				if i == 0 || s != cp[i-1] {
+					dd = append(dd, s)
+				}
+			}
+			out[strings.Join(dd, " && ")] = true
+			return true
+		}
+		if seen[b] {
+			return true
+		}
+		seen[b] = true
+		defer delete(seen, b)
+		for _, sc := range b.Succs {
+			if !reaches(sc, to) {
+				continue
+			}
+			c2 := conj
+			if len(b.Instrs) > 0 {
+				if iff, ok := b.Instrs[len(b.Instrs)-1].(*ssa.If); ok && b.Succs[0] != b.Succs[1] {
+					if at, ok := condAtom(iff.Cond, b.Succs[0] == sc); ok {
+						at = at.canon()
+						if !drop(at) {
+							c2 = append(append([]string{}, conj...), at.String())
+						}
+					}
+				}
+			}
+			if !walk(sc, c2, seen) {
+				return false
+			}
+		}
+		return true
+	}
+	ok := walk(from, nil, map[*ssa.BasicBlock]bool{})
+	return out, ok
+}
+
+func reaches(a, b *ssa.BasicBlock) bool {
+	if a == b {
+		return true
+	}
+	return blocksReachableFrom(a)[b]
+}
+
+// checkPairedAssignment: two prepared strings that switch a terminal mode on
+// and off must be available together: the literal fallback of the "off" string
+// is assigned under the same conditions as the fallback of the "on" string
+// (conditions on the description's own value of either string left aside).
+func checkPairedAssignment(c *Ctx, p *Prog, fn *ssa.Function, rule, owner, on, off string) {
+	key := fn.Name() + ":" + on + "/" + off + ":assigned-together"
+	dnfOf := func(field string) (map[string]bool, string) {
+		sts := storesTo(fn, owner, field)
+		if len(sts) == 0 {
+			return nil, "no store to " + field
+		}
+		var fb *ssa.Store
+		var own []string
+		for _, st := range sts {
+			if _, ok := constString(st.Val); ok {
+				fb = st
+			} else if ref, _, ok := loadedField(st.Val); ok {
+				own = append(own, ref.Name)
+			}
+		}
+		if fb == nil {
+			return map[string]bool{"(no fallback)": true}, ""
+		}
+		// anchor: nearest common dominator of all stores to the field
+		anchor := fb.Block()
+		for {
+			all := true
+			for _, st := range sts {
+				if !anchor.Dominates(st.Block()) {
+					all = false
+				}
+			}
+			if all || anchor.Idom() == nil {
+				break
+			}
+			anchor = anchor.Idom()
+		}
+		drop := func(a Atom) bool {
+			for _, o := range own {
+				if strings.HasSuffix(a.L, "."+o) || strings.HasSuffix(a.R, "."+o) {
+					return true
+				}
+			}
+			return false
+		}
+		d, ok := localGuardDNF(anchor, fb.Block(), drop)
+		if !ok {
+			return nil, "too many paths"
+		}
+		return d, ""
+	}
+	a, why := dnfOf(on)
+	if a == nil {
+		c.Undecided(rule, key, p.pos(fn.Pos()), why)
+		return
+	}
+	b, why := dnfOf(off)
+	if b == nil {
+		c.Undecided(rule, key, p.pos(fn.Pos()), why)
+		return
+	}
+	same := len(a) == len(b)
+	for k := range a {
+		if !b[k] {
+			same = false
+		}
+	}
+	c.Check(same, rule, key, p.pos(fn.Pos()), fmt.Sprintf("fallback for %s under %v; fallback for %s under %v", on, sortedKeys(a), off, sortedKeys(b)))
 }
